@@ -260,12 +260,16 @@ def apiClone (w : World) (h h' : Nat) : World × String :=
         let nsId := w.next
         let rootId := w.next + 1
         let w := { w with next := w.next + 2 }
-        let rootReg := (ns.text.lookup o.name).isSome
+        -- text/template Clone: the clone of `t.text` itself takes the slot of its name in the new common
+        -- set, even when `t.text` was not the registered object (then its nil Tree shadows the old body)
+        let ctext : TextSet := if o.registered then ns.text
+          else ns.text.map (fun p => if p.1 == o.name then (p.1, none) else p)
+        let rootReg := (ctext.lookup o.name).isSome
         let root : TObj := { ns := nsId, name := o.name, registered := rootReg,
-                             treeNil := !(match ns.text.lookup o.name with | some (some _) => true | _ => false) }
+                             treeNil := !(match ctext.lookup o.name with | some (some _) => true | _ => false) }
         let w := w.setObj rootId root
-        let w := w.setNs nsId { set := [(o.name, rootId)], text := ns.text }
-        let w := ns.text.foldl (fun (w : World) (p : String × Option Tree) =>
+        let w := w.setNs nsId { set := [(o.name, rootId)], text := ctext }
+        let w := ctext.foldl (fun (w : World) (p : String × Option Tree) =>
           let oid := w.next
           let w := { w with next := w.next + 1 }
           let n := w.ns nsId
